@@ -157,8 +157,16 @@ fn check_case(ctx: &mut Ctx, c: &Case) {
     for (route, r) in routes {
         match r {
             Ok(v) => {
-                let same = v == sv && to_bytes(&v) == bytes;
-                ctx.require(|| format!("SparseVector.route({})", route), same, || json!({"bv": case(), "call": route}), || json!({"observed": "vector differs from the one built with try_set", "len": v.len(), "ones": v.count_ones()}));
+                // Same bits and counts, same answers (identical representation is C11's statement).
+                let same = guard(|| {
+                    use simple_sds::ops::Select;
+                    v.len() == sv.len() && v.count_ones() == sv.count_ones() && v.one_iter().eq(sv.one_iter())
+                });
+                ctx.expect(|| format!("SparseVector.route({})[bits and counts]", route), same, &true, || json!({"bv": case(), "call": route}));
+                let mut q2 = if m.len <= 64 { Queries::exhaustive(&m) } else { Queries::edges(&m, &[], &[16], 12, false) };
+                q2.full_iters = false;
+                let name = format!("SparseVector(route {})", route);
+                check_bitvec!(ctx, &v, &m, &name, &q2, case);
             }
             Err(msg) => ctx.panic_violation(&format!("SparseVector.route({})", route), &msg, None, || json!({"bv": case(), "call": route})),
         }
